@@ -388,6 +388,11 @@ static double ortho_cost(const Avoid::PolyLine &r, double penCells, bool &diag) 
     for (size_t i = 2; i < q.size(); i++) { bool rev = (q[i - 2].x == q[i - 1].x && q[i - 1].x == q[i].x) || (q[i - 2].y == q[i - 1].y && q[i - 1].y == q[i].y); bends += rev ? 2 : 1; }
     return len / S + penCells * bends;
 }
+// does the raw route reverse on itself (a point p[i] with p[i-1] and p[i+1] on the same side of it along one line)?
+static bool doubles_back(const Avoid::PolyLine &r) {
+    for (size_t i = 1; i + 1 < r.size(); i++) { double ax = r.ps[i].x - r.ps[i - 1].x, ay = r.ps[i].y - r.ps[i - 1].y, bx = r.ps[i + 1].x - r.ps[i].x, by = r.ps[i + 1].y - r.ps[i].y; if (ax * by - ay * bx == 0 && ax * bx + ay * by < 0) return true; }
+    return false;
+}
 // libavoid ConnDir flag -> oracle heading bit (0=+x,1=+y,2=-x,3=-y); y grows downward in libavoid ("Down" = +y)
 static int dirmask_start(unsigned f) { int m = 0; if (f & Avoid::ConnDirRight) m |= 1; if (f & Avoid::ConnDirDown) m |= 2; if (f & Avoid::ConnDirLeft) m |= 4; if (f & Avoid::ConnDirUp) m |= 8; return m; }
 static int dirmask_end(unsigned f) { int m = 0; if (f & Avoid::ConnDirLeft) m |= 1; if (f & Avoid::ConnDirUp) m |= 2; if (f & Avoid::ConnDirRight) m |= 4; if (f & Avoid::ConnDirDown) m |= 8; return m; }
@@ -429,7 +434,7 @@ static void c05_phase(int G, int k, double penCells, bool dirs) {
                 // unrestricted optimum <= cost <= optimum over restricted Hanan-grid paths (when one exists)
                 OrthoGrid og2(G, rs); double lb = og2.best(fr[a].x, fr[a].y, fr[b].x, fr[b].y, penCells, 15, 15, 2);
                 if (cost < lb - 1e-6) ctx.violation("cheaper_than_possible", {}, desc, mcx::fmt("route cost %.9g unrestricted optimum %.9g route ", cost, lb) + route_str(c->route()));
-                else if (o < 1e17 && cost > o + 1e-6) ctx.violation("costlier_than_optimal", {faces(fr[a], dl[da]) && da && db ? "both_ends_restricted_and_source_faces_a_shape" : "direction_restricted_point_other"}, desc, mcx::fmt("route cost %.9g restricted Hanan optimum %.9g route ", cost, o) + route_str(c->route()));
+                else if (o < 1e17 && cost > o + 1e-6) ctx.violation("costlier_than_optimal", {faces(fr[a], dl[da]) && da && db ? "both_ends_restricted_and_source_faces_a_shape" : doubles_back(c->route()) ? "direction_restricted_route_doubles_back" : "direction_restricted_point_other"}, desc, mcx::fmt("route cost %.9g restricted Hanan optimum %.9g route ", cost, o) + route_str(c->route()));
                 if (cost < o - 1e-6) ctx.count("restriction_not_honoured_or_no_restricted_path");
             }
             ctx.cls("cost_minus_length_in_bends", mcx::fmt("%d", (int)lround((cost - (fabs((double)fr[a].x - fr[b].x) + fabs((double)fr[a].y - fr[b].y))) / max(penCells, 1e-9))));
@@ -500,8 +505,8 @@ int main(int argc, char **argv) {
     } else if (PROP == "C05") {
         c05_bends(T ? 4 : 2);
         for (double pen : {0.5, 1.0, 2.0, 3.0, 10.0}) { c05_phase(4, 1, pen, false); c05_phase(4, 2, pen, false); }   // 1 and 3 cells: exact ties between "one more bend" and "k more cells"
-        c05_phase(3, 1, 2, true); c05_phase(4, 1, 2, true);
-        if (T) { for (double pen : {0.5, 2.0, 10.0}) c05_phase(5, 2, pen, false); c05_phase(5, 3, 2, false); c05_phase(4, 2, 2, true); c05_phase(4, 2, 0.5, true); }
+        c05_phase(3, 1, 2, true); c05_phase(4, 1, 2, true); c05_phase(4, 2, 2, true);
+        if (T) { for (double pen : {0.5, 1.0, 2.0, 10.0}) c05_phase(5, 2, pen, false); c05_phase(5, 3, 2, false); c05_phase(4, 2, 0.5, true); }
     } else { fprintf(stderr, "need --prop C03|C04|C05\n"); return 3; }
     return ctx.finish();
 }
